@@ -83,7 +83,8 @@ class BaseSession(SessionInterface, Generic[MessageT]):
     def _pick_selected(cls, selected: SelectedMailbox | None,
                        mbx: MailboxDataInterface[MessageT]) \
             -> SelectedMailbox | None:
-        if selected and selected.mailbox_id == mbx.mailbox_id:
+        if selected and not selected.readonly \
+                and selected.mailbox_id == mbx.mailbox_id:
             return selected
         return mbx.selected_set.any_selected
 
